@@ -482,8 +482,8 @@ func (w *_nodeRepr) Length() int64 {
 	case schema.UnionRepresentation_Keyed:
 		return (*_node)(w).Length()
 	case schema.UnionRepresentation_Kinded:
-		w = w.asKinded(stg, w.Kind())
-		return (*_node)(w).Length()
+		// the representation-level length of the member (which may itself omit absent fields)
+		return w.asKinded(stg, w.Kind()).Length()
 	default:
 		return (*_node)(w).Length()
 	}
